@@ -84,7 +84,12 @@ func progOpts() gen.ProgOpts {
 // never produces. The rest of the program runs after the recovery, in one or
 // two more process lifetimes.
 func genBufEdge(t *rapid.T) drive.CrashCase {
-	p := drive.Program{Keys: gen.Keys(t, 3, 10)}
+	p := drive.Program{}
+	for _, k := range gen.Keys(t, 3, 10) {
+		if len(k) <= 4096 { // the byte arithmetic below assumes unfragmented records
+			p.Keys = append(p.Keys, k)
+		}
+	}
 	p.Cfg = drive.Cfg{MemTableSize: 32 << 20, MaxMemTables: 2,
 		SyncMode:  rapid.IntRange(0, 1).Draw(t, "sync"),
 		SyncBytes: 1 << 20}
